@@ -225,9 +225,20 @@ func parseRawSuite(raw string) (SuiteConfig, error) {
 	return cfg, nil
 }
 
+// asciiUpper upper-cases ASCII letters only. strings.ToUpper would also map
+// non-ASCII letters such as U+017F to ASCII ('S') and so into the token alphabet.
+func asciiUpper(s string) string {
+	return strings.Map(func(r rune) rune {
+		if r >= 'a' && r <= 'z' {
+			return r - ('a' - 'A')
+		}
+		return r
+	}, s)
+}
+
 // parseCryptoFunction handles the "HOTP-SHA1-6" or "HOTP-SHA256-8" part.
 func parseCryptoFunction(raw, crypto string) (SuiteConfig, error) {
-	if !strings.HasPrefix(strings.ToUpper(crypto), "HOTP-SHA") {
+	if !strings.HasPrefix(asciiUpper(crypto), "HOTP-SHA") {
 		return SuiteConfig{}, fmt.Errorf("unknown or unsupported crypto in %q", raw)
 	}
 	rest := crypto[5:]
@@ -239,7 +250,7 @@ func parseCryptoFunction(raw, crypto string) (SuiteConfig, error) {
 	digPart := parts[1]  // "8" or "6", etc.
 
 	var cfg SuiteConfig
-	switch strings.ToUpper(hashPart) {
+	switch asciiUpper(hashPart) {
 	case "SHA1":
 		cfg.Hash = SHA1
 	case "SHA256":
@@ -263,7 +274,7 @@ func parseCryptoFunction(raw, crypto string) (SuiteConfig, error) {
 func parseDataInputTokens(cfg *SuiteConfig, input string) error {
 	toks := strings.Split(input, "-")
 	for _, tok := range toks {
-		tokU := strings.ToUpper(tok)
+		tokU := asciiUpper(tok)
 		switch {
 		case tokU == "C":
 			cfg.IncludeCounter = true
